@@ -10,7 +10,6 @@ from wire import (Toks, p_list, p_str, p_bool, p_opt, p_attr, p_attrarg, p_attrp
                   enodes, elist, eattrarg, eattrdict, eopt, err_of, ok_str)
 
 import htmltools
-from htmltools._core import TagAttrDict
 
 
 class HarnessBug(Exception):
@@ -100,10 +99,55 @@ def install_attrs(t: Tag, attrs) -> None:
 
 
 # ------------------------------------------------------------------ C15
+def _name_routes(k: str):
+    """the stored name of an attribute supplied under the raw name `k`, through every PUBLIC way of supplying it
+    (no private helper is named: a refactoring that moves the normaliser cannot change the answer)"""
+    def keys(x):
+        return list(x)
+
+    def via_update():
+        t = Tag("div")
+        t.attrs.update({k: "v"})
+        return keys(t.attrs)
+
+    def via_update_kw():
+        t = Tag("div")
+        t.attrs.update(**{k: "v"})
+        return keys(t.attrs)
+
+    def via_setitem():
+        t = Tag("div")
+        t.attrs[k] = "v"
+        return keys(t.attrs)
+
+    attr_dict = type(Tag("div").attrs)
+    return [
+        ("Tag('div', {k: 'v'})", lambda: keys(Tag("div", {k: "v"}).attrs)),
+        ("Tag('div', **{k: 'v'})", lambda: keys(Tag("div", **{k: "v"}).attrs)),
+        ("type(tag.attrs)({k: 'v'})", lambda: keys(attr_dict({k: "v"}))),
+        ("tag.attrs.update({k: 'v'})", via_update),
+        ("tag.attrs.update(**{k: 'v'})", via_update_kw),
+        ("tag.attrs[k] = 'v'", via_setitem),
+        ("consolidate_attrs({k: 'v'})", lambda: keys(htmltools.consolidate_attrs({k: "v"})[0])),
+    ]
+
+
 @op("norm_name")
 @guarded
 def _norm_name(t: Toks) -> str:
-    return es(TagAttrDict._normalize_attr_name(p_str(t)))
+    k = p_str(t)
+    got = []
+    for label, f in _name_routes(k):
+        if k in ("_name", "_add_ws") and "**" in label:
+            continue   # these two keywords are parameters of Tag.__init__, not attributes
+        r = f()
+        if len(r) != 1:
+            return "routes " + es(label) + " stored " + str(len(r)) + " names"
+        got.append((label, r[0]))
+    names = {n for _, n in got}
+    if len(names) != 1:   # an answer of another shape: no model answer equals it
+        return "routes-disagree " + " ".join(es(lb) + " " + es(n) for lb, n in got)
+    return es(got[0][1])
 
 
 def p_dicts(t: Toks):
@@ -158,14 +202,47 @@ def _consolidate(t: Toks) -> str:
     args = p_list(t, p_tagarg)
     kw = realize_dict(p_list(t, p_attrpair))
     real = [realize_dict(a[1]) if a[0] == "d" else realize(a[1]) for a in args]
-    attrs, kids = htmltools.consolidate_attrs(*real, **kw)
+    attrs, kids = htmltools.consolidate_attrs(*real, **kw)      # raises: the op's answer is that error
     given = [x for x in real if not isinstance(x, dict)]
     identical = len(kids) == len(given) and all(a is b for a, b in zip(kids, given))
-    rebuilt = Tag("x", attrs, *kids)
-    direct = Tag("x", *real, **kw)
-    same = canon(rebuilt) == canon(direct)
+    try:
+        same = canon(Tag("x", attrs, *kids)) == canon(Tag("x", *real, **kw))
+    except Exception:  # noqa: BLE001
+        same = False
     assert type(attrs) is dict
     return "ok " + canon_attrs(attrs) + " " + enodes(canon_list(kids)) + " " + eb(same) + " " + eb(identical)
+
+
+def p_tagarg_a(t: Toks):
+    from wire import p_arg
+    k = t.next()
+    if k == "d":
+        return ("d", p_list(t, p_attrpair))
+    return ("a", p_arg(t))
+
+
+@op("consolidate_args")
+@guarded
+def _consolidate_args(t: Toks) -> str:
+    """consolidate_attrs with arbitrary values among the non-dict arguments (unsupported objects, dicts / sets inside
+    lists, None, numbers, nested sequences): it must raise exactly when building the tag raises"""
+    import ops_children as oc
+    from wire import eargs
+    args = p_list(t, p_tagarg_a)
+    kw = realize_dict(p_list(t, p_attrpair))
+    for a in args:
+        if a[0] == "a" and a[1][0] == "seq" and a[1][1] == "dict":
+            raise HarnessBug("a dict among the positional arguments is an attribute dict, not a child")
+    real = [realize_dict(a[1]) if a[0] == "d" else oc.realize_arg(a[1]) for a in args]
+    attrs, kids = htmltools.consolidate_attrs(*real, **kw)      # raises: the op's answer is that error
+    given = [x for x in real if not isinstance(x, dict)]
+    identical = len(kids) == len(given) and all(a is b for a, b in zip(kids, given))
+    try:   # consolidate_attrs returned: if building the tag raises now, the two disagree (not an error of the op)
+        same = canon(Tag("x", attrs, *kids)) == canon(Tag("x", *real, **kw))
+    except Exception:  # noqa: BLE001
+        same = False
+    assert type(attrs) is dict
+    return "ok " + canon_attrs(attrs) + " " + eargs([oc.canon_arg(k) for k in kids]) + " " + eb(same) + " " + eb(identical)
 
 
 @op("attr_render")
@@ -307,6 +384,12 @@ def consolidate_line(args, kw) -> str:
             + " " + eattrdict(kw))
 
 
+def consolidate_args_line(args, kw) -> str:
+    from wire import earg
+    return ("consolidate_args " + elist([("d " + eattrdict(a[1])) if a[0] == "d" else ("a " + earg(a[1])) for a in args])
+            + " " + eattrdict(kw))
+
+
 def chist_line(attrs, steps) -> str:
     def estep(s):
         if s[0] == "ac":
@@ -383,8 +466,21 @@ def python_snippet(line: str) -> str:
                 f"{k!r}: {cv(v)}" for k, v in kw) + "}))"
         if name == "consolidate":
             return pre + "# consolidate_attrs(*args, **kw) with the arguments of the wire line (see `line`)"
+        if name == "consolidate_args":
+            import ops_children as oc
+            args = p_list(t, p_tagarg_a)
+            kw = p_list(t, p_attrpair)
+            a = ", ".join([_py_dict(x[1]) if x[0] == "d" else oc.py_arg(x[1]) for x in args] + ([f"**{_py_dict(kw)}"] if kw else []))
+            return (pre + "import decimal, fractions\n"
+                    + f"args = [{', '.join(_py_dict(x[1]) if x[0] == 'd' else oc.py_arg(x[1]) for x in args)}]\n"
+                    + f"kw = {_py_dict(kw)}\n"
+                    + "try: print('Tag:', Tag('x', *args, **kw))\nexcept Exception as e: print('Tag raises', type(e).__name__)\n"
+                    + "try: print('consolidate_attrs:', consolidate_attrs(*args, **kw))\nexcept Exception as e: print('consolidate_attrs raises', type(e).__name__)\n")
         if name == "norm_name":
-            return f"from htmltools._core import TagAttrDict\nprint(TagAttrDict._normalize_attr_name({p_str(t)!r}))"
+            k = p_str(t)
+            return (pre + f"k = {k!r}\nt = Tag('div'); t.attrs[k] = 'v'; u = Tag('div'); u.attrs.update({{k: 'v'}})\n"
+                    "print(list(Tag('div', {k: 'v'}).attrs), list(Tag('div', **{k: 'v'}).attrs), list(t.attrs), list(u.attrs), "
+                    "list(consolidate_attrs({k: 'v'})[0]))")
     except Exception as e:  # a reproduction aid only
         return f"# (no snippet: {type(e).__name__}: {e})"
     return ""
